@@ -6,8 +6,11 @@ import (
 	"bytes"
 	"context"
 	"io"
+	"net/http"
+	"strconv"
 
 	"cuelabs.dev/go/oci/ociregistry"
+	"cuelabs.dev/go/oci/ociregistry/ociclient"
 	"cuelabs.dev/go/oci/ociregistry/ocimem"
 	"github.com/opencontainers/go-digest"
 )
@@ -87,7 +90,92 @@ func VerifC01_StackRange() {
 	verifCover("end")
 }
 
+// c01corrupt is a wire that lets the real server answer and then replaces the body of
+// the GET response with other bytes and/or a different declared length and/or another
+// digest header: what a broken or malicious server could send.
+type c01corrupt struct {
+	inner   *vsTransport
+	body    []byte
+	mode    int
+	clen    int64
+	applied bool
+}
+
+func (t *c01corrupt) RoundTrip(req *http.Request) (*http.Response, error) {
+	resp, err := t.inner.RoundTrip(req)
+	if err != nil || req.Method != "GET" || resp.StatusCode != 200 {
+		return resp, err
+	}
+	t.applied = true
+	switch t.mode {
+	case 0: // other bytes, length header kept
+		resp.Body = io.NopCloser(bytes.NewReader(t.body))
+	case 1: // other bytes, length header agrees with them
+		resp.Body = io.NopCloser(bytes.NewReader(t.body))
+		resp.ContentLength = int64(len(t.body))
+		resp.Header.Set("Content-Length", strconv.Itoa(len(t.body)))
+	case 2: // right bytes, arbitrary declared length
+		resp.ContentLength = t.clen
+	default: // other bytes, arbitrary declared length, no digest header
+		resp.Body = io.NopCloser(bytes.NewReader(t.body))
+		resp.ContentLength = t.clen
+		resp.Header.Del("Docker-Content-Digest")
+	}
+	return resp, nil
+}
+
+// VerifC01_ClientVerifies: a complete read through the HTTP client of content that does
+// not match its descriptor (wrong bytes, too short, too long, wrong declared length)
+// ends in an error, never in a clean end-of-stream: whenever the read of a blob, a
+// manifest by digest or a manifest by tag ends cleanly, the bytes are the pushed bytes.
+func VerifC01_ClientVerifies() {
+	k := verifParam("maxlen", 2)
+	content := verifBytes("content", k)
+	mem := ocimem.New()
+	ctx := context.Background()
+	dig := digest.FromBytes(content)
+	_, err := mem.PushBlob(ctx, "a/b", ociregistry.Descriptor{MediaType: "application/octet-stream", Digest: dig, Size: int64(len(content))}, bytes.NewReader(content))
+	verifAssert(err == nil, "setup")
+	_, err = mem.PushManifest(ctx, "a/b", "t", content, "application/x-opaque")
+	verifAssert(err == nil, "setup")
+	tr := &c01corrupt{inner: &vsTransport{h: New(mem, nil)}, body: verifBytes("served", k+1), mode: verifChoose("corruption", 4)}
+	tr.clen = []int64{-1, 0, 1, 2, 3, 4, 131072, 131073}[verifChoose("declaredLength", 8)]
+	c, cerr := ociclient.New("h.example", &ociclient.Options{Transport: tr})
+	verifAssert(cerr == nil, "client")
+	var rd ociregistry.BlobReader
+	read := verifChoose("read", 3)
+	switch read {
+	case 0:
+		rd, err = c.GetBlob(ctx, "a/b", dig)
+	case 1:
+		rd, err = c.GetManifest(ctx, "a/b", dig)
+	default:
+		rd, err = c.GetTag(ctx, "a/b", "t")
+	}
+	if err != nil {
+		verifCover("refused")
+		return
+	}
+	got, rerr := io.ReadAll(rd)
+	rd.Close()
+	if rerr != nil {
+		verifCover("read-error")
+		return
+	}
+	d := rd.Descriptor()
+	// whatever was read cleanly is what the reader's descriptor describes ...
+	verifAssert(d.Size == int64(len(got)) && d.Digest == digest.FromBytes(got), "a-clean-read-matches-its-descriptor")
+	if read != 2 {
+		// ... and for a read by digest that is the digest asked for, hence the pushed bytes
+		// (a read by tag has no digest to check against when the server sends none)
+		verifAssert(d.Digest == dig, "a-clean-read-describes-the-requested-digest")
+		verifAssert(bytes.Equal(got, content), "a-clean-read-yields-the-pushed-bytes")
+	}
+	verifCover("clean")
+}
+
 func init() {
+	verifRegister("VerifC01_ClientVerifies", VerifC01_ClientVerifies)
 	verifRegister("VerifC01_StackRange", VerifC01_StackRange)
 	verifRegister("VerifC01_StackPushGet", VerifC01_StackPushGet)
 }
